@@ -392,6 +392,7 @@ func (g *Kern) emitK(sk, dk Kind, xs []uint64) {
 	g.flushPanics()
 	defer g.namedCheck(sk, dk, xs, ys)
 	defer g.pooledCheck(sk, dk, xs, ys)
+	defer g.preparedCheck(sk, dk, xs, ys)
 	fn := convName(sk, dk)
 	fmt.Fprintf(g.out, "kseq %s %s %s\n", fn, sk, dk)
 	for i, x := range xs {
@@ -571,6 +572,9 @@ func (g *Kern) emitKPos(sk, dk Kind, specials []uint64) {
 // longScreen: very long buffers (parallel or chunked conversion paths). The result at position i may
 // depend only on the sample at position i, so the long run is screened natively against a short run of
 // the same values (which the model judges); positions that differ are emitted as kernel lines.
+// lengths of the position-independence screen: past 2^16, 2^18 and 2^20 samples, none a multiple of 4
+var longScreenLengths = []int{1<<16 + 1, 1<<18 + 3, 1<<20 + 3}
+
 func (g *Kern) longScreen(sk, dk Kind, specials []uint64) {
 	ref, p := runKernelOpt(sk, dk, specials, false)
 	if p != "" {
@@ -578,7 +582,7 @@ func (g *Kern) longScreen(sk, dk Kind, specials []uint64) {
 	}
 	// the reference must not depend on the stale pattern of the short run: take it from the values
 	m := len(specials)
-	for _, L := range []int{1<<16 + 1, 1<<18 + 3} {
+	for _, L := range longScreenLengths {
 		src := Alloc(sk, false, signal.Allocator{Channels: 1, Length: L, Capacity: L})
 		dst := Alloc(dk, false, signal.Allocator{Channels: 1, Length: L, Capacity: L})
 		fill := stalePattern(dk)
